@@ -338,6 +338,73 @@ pub fn check_tight(tape: &[u16], rc: &mut RCase) -> Result<(), Failure> {
     Ok(())
 }
 
+/// Histories of whole programs: an instance compiles one to three generated transactions (redeemers, Plutus and
+/// native witnesses of any version, withdrawals, metadata, mint) and then the target; a fresh, identically
+/// configured instance compiles the target alone. Anything the instance keeps from a transaction - a remembered
+/// body, a derived table, a language view - must not reach the next one.
+pub fn check_program_history(tape: &[u16], rc: &mut RCase) -> Result<(), Failure> {
+    use crate::ggen::{Feat, Gen};
+    let mut t = Tape::new(tape);
+    let n_hist = 1 + t.pick(3);
+    let cost_models = [7u8, 7, 3, 5, 6][t.pick(5)];
+    let mut cases = vec![];
+    for _ in 0..n_hist + 1 {
+        let mut feat = Feat::core();
+        feat.withdrawals = true;
+        feat.witnesses = true;
+        feat.donation = true;
+        feat.max_txs = 1;
+        let case = Gen::new(&mut t, feat).generate();
+        let src = crate::gast::print_plain(&case.prog);
+        cases.push((case, src));
+    }
+    let (target, target_src) = cases.pop().unwrap();
+    // one network for the whole history: the configuration belongs to the instance
+    let cfg = Cfg { mainnet: target.mainnet, cost_models, ..Cfg::default() };
+    let env_t = target.env(cfg.slot, cfg.time);
+    let rendered = || json!({"history": cases.iter().map(|c| c.1.clone()).collect::<Vec<_>>(), "target": target_src, "cost_models": cost_models});
+    let show = |r: &Result<tx3_tir::compile::CompiledTx, pipeline::StageErr>| match r {
+        Ok(c) => format!("Ok(fee {}, hash {}, {} bytes)", c.fee, hex::encode(&c.hash), c.payload.len()),
+        Err(e) => format!("Err({})", crate::util::trunc(&e.describe(), 200)),
+    };
+    let same = |a: &Result<tx3_tir::compile::CompiledTx, pipeline::StageErr>, b: &Result<tx3_tir::compile::CompiledTx, pipeline::StageErr>| match (a, b) {
+        (Ok(x), Ok(y)) => x.payload == y.payload && x.hash == y.hash && x.fee == y.fee,
+        (Err(x), Err(y)) => x.stage() == y.stage() && x.is_panic() == y.is_panic(),
+        _ => false,
+    };
+    let fresh = pipeline::run_direct_on(&target_src, &env_t, &mut pipeline::compiler(&cfg));
+    let again = pipeline::run_direct_on(&target_src, &env_t, &mut pipeline::compiler(&cfg));
+    if !same(&fresh, &again) {
+        rc.label("unstable_baseline(C10)");
+        return Ok(());
+    }
+    let mut used = pipeline::compiler(&cfg);
+    let mut compiled_before = 0;
+    for (case, src) in &cases {
+        if case.mainnet != target.mainnet {
+            // its addresses belong to the other network; the history entry is refused early, which is a history too
+            rc.label("history_entry_of_the_other_network");
+        }
+        let env = case.env(cfg.slot, cfg.time);
+        if pipeline::run_direct_on(src, &env, &mut used).is_ok() {
+            compiled_before += 1;
+        }
+    }
+    let after = pipeline::run_direct_on(&target_src, &env_t, &mut used);
+    if !same(&fresh, &after) {
+        return Err(Failure::new(
+            if fresh.is_ok() && after.is_ok() { "different_transaction_after_history" } else { "different_outcome_after_history" },
+            format!("fresh instance: {} ; after {} earlier transaction(s) ({} compiled): {}", show(&fresh), cases.len(), compiled_before, show(&after)),
+            rendered(),
+        ));
+    }
+    rc.label(if fresh.is_ok() { "program_history:target_ok" } else { "program_history:target_err" });
+    rc.label_n("program_history:earlier_transactions_compiled", compiled_before as u64);
+    let scripts = |c: &crate::ggen::Case| c.features.contains("plutus_witness") || c.features.contains("input_redeemer");
+    rc.record(hash64(&format!("{:?}{}", cases.iter().map(|c| &c.1).collect::<Vec<_>>(), target_src)), compiled_before > 0 && fresh.is_ok() && (scripts(&target) || cases.iter().any(|c| scripts(&c.0))), rendered);
+    Ok(())
+}
+
 pub fn run(tier: Tier, seed: u64) -> Report {
     let mut r = Report::new("C20", tier, seed);
     r.rule = "histories of 0..4 earlier resolve_tx calls on one Compiler (templates with 0..5 pay outputs, succeeding, \
@@ -350,6 +417,7 @@ pub fn run(tier: Tier, seed: u64) -> Report {
     r.assumptions = vec!["two fresh instances must agree first (otherwise counted as unstable_baseline, C10's subject)".into()];
     r.explore("histories", tier.pick(6_000, 200_000), 500, &|t, rc| check_case(t, rc));
     r.explore("tight_funding", tier.pick(1_500, 40_000), 60, &|t, rc| check_tight(t, rc));
+    r.explore("histories_of_whole_programs", tier.pick(6_000, 200_000), 900, &|t, rc| check_program_history(t, rc));
     r
 }
 
@@ -358,6 +426,8 @@ pub fn replay(phase: &str, tape: &[u16], seed: u64) -> Report {
     r.strict = true;
     if phase.starts_with("tight") {
         r.explore_list(phase, &[tape.to_vec()], &|t, rc| check_tight(t, rc));
+    } else if phase == "histories_of_whole_programs" {
+        r.explore_list(phase, &[tape.to_vec()], &|t, rc| check_program_history(t, rc));
     } else {
         r.explore_list(phase, &[tape.to_vec()], &|t, rc| check_case(t, rc));
     }
